@@ -24,6 +24,7 @@ from . import report
 # (relative file, old text, new text, expected rule or None)
 MUTANTS: Dict[str, List[Tuple[str, str, str, Optional[str]]]] = {
     "C01": [
+        ("pyttb/pyttb_utils.py", "[i for i in range(rdims[0] - 1, -1, -1)]", "[i for i in range(rdims[0])]", "CYC"),
         ('pyttb/tensor.py', '        if rdims.size == 0:\n            dims = cdims.copy()', '        if rdims.size == 0:\n            dims = np.arange(n)', 'PS'),
         ('pyttb/tenmat.py', '        if order.size > 1:\n            if not copy:', '        if order.size > 1 and self.rindices.size > 0 and self.cindices.size > 0:\n            if not copy:', 'INV'),
         ("pyttb/tenmat.py", "data = to_memory_order(np.transpose(data, np.argsort(order)), self.order)", "data = to_memory_order(np.transpose(data, order), self.order)", "INV"),
@@ -32,6 +33,8 @@ MUTANTS: Dict[str, List[Tuple[str, str, str, Optional[str]]]] = {
         ("pyttb/ktensor.py", "ttb.khatrirao(*self.factor_matrices[:i_split], reverse=True)", "ttb.khatrirao(*self.factor_matrices[:i_split])", "KR"),
     ],
     "C02": [
+        ("pyttb/ttensor.py", "tmp = Y.innerprod(self.core)", "tmp = Y.innerprod(Y)", "WDEG"),
+        ("pyttb/cp_apr.py", "                Model.factor_matrices[:factorIndex]\n                + Model.factor_matrices[factorIndex + 1 :]", "                Model.factor_matrices[factorIndex + 1 :]\n                + Model.factor_matrices[:factorIndex]", "KR"),
         ('pyttb/tensor.py', '        elif isinstance(selfdims, int):\n            selfdims = np.array([selfdims])', '        else:\n            selfdims, _ = tt_dimscheck(self.ndims, dims=selfdims)', 'PAIRED'),
         ('pyttb/tensor.py', '        Y_data = np.transpose(Y_data, np.argsort(order))\n        return ttb.tensor(Y_data, copy=True)', '        Y_data = np.array(np.transpose(Y_data, np.argsort(order)), dtype=self.data.dtype, order=self.order)\n        return ttb.tensor(Y_data, copy=False)', 'DTYPE'),
         ('pyttb/sptensor.py', '        c = ttb.sptensor.from_aggregator(newsubs, newvals, tuple(newsiz))', '        c = ttb.sptensor(newsubs, newvals, tuple(newsiz))', 'AGG'),
@@ -44,6 +47,7 @@ MUTANTS: Dict[str, List[Tuple[str, str, str, Optional[str]]]] = {
         ("pyttb/sumtensor.py", "        for part in self.parts[1:]:\n            result += part.mttkrp(U, n)", "        for part in self.parts[2:]:\n            result += part.mttkrp(U, n)", "FOLD"),
     ],
     "C03": [
+        ("pyttb/tensor.py", "return np.logical_xor(x, y).astype(dtype=x.dtype)", "return np.logical_xor(x > 0, y > 0).astype(dtype=x.dtype)", "LOGIC"),
         ('pyttb/sptensor.py', 'operator(self.extract(subs3), other.extract(subs3))', 'operator(self.vals[tt_intersect_rows(self.subs, other.subs)], other.vals[tt_intersect_rows(other.subs, self.subs)])', 'IX-seq'),
         ("pyttb/sptensor.py", "            _, idxOther = tt_ismember_rows(self.subs[idxSelf], other.subs)\n            return ttb.sptensor(", "            idxOther = tt_intersect_rows(other.subs, self.subs)\n            return ttb.sptensor(", "IX-seq"),
         ("pyttb/sptensor.py", "lambda x: len(x) == 2", "lambda x: len(x) >= 1", "CNTPRED"),
@@ -59,6 +63,7 @@ MUTANTS: Dict[str, List[Tuple[str, str, str, Optional[str]]]] = {
         ("pyttb/tensor.py", "        idx = tt_ind2sub(self.shape, idx)\n        if idx.shape[0] == 1:", "        idx = tt_ind2sub(self.shape, idx, order=\"C\")\n        if idx.shape[0] == 1:", "EO-1"),
     ],
     "C05": [
+        ("pyttb/tensor.py", "a = ttb.tensor(newdata, copy=True)", "a = ttb.tensor(np.asfortranarray(newdata), copy=False)", "AL-ret"),
         ("pyttb/tensor.py", "return ttb.tensor(np.transpose(self.data, order), copy=True)", "return ttb.tensor(np.transpose(self.data, order), copy=False)", "AL-ret"),
         ("pyttb/sptensor.py", "return self.subs.copy(), self.vals.copy()", "return self.subs, self.vals", "AL-ret"),
         ("pyttb/hosvd.py", "ranks = parse_one_d(ranks).copy()", "ranks = parse_one_d(ranks)", "AL-mut"),
@@ -81,6 +86,7 @@ MUTANTS: Dict[str, List[Tuple[str, str, str, Optional[str]]]] = {
         ("pyttb/ttensor.py", "new_u = [self.factor_matrices[idx] for idx in order]", "new_u = [self.factor_matrices[idx] for idx in np.argsort(order)]", None),
     ],
     "C08": [
+        ("pyttb/ktensor.py", "tmp = np.linalg.norm(self.factor_matrices[mode][:, r], ord=normtype)", "tmp = np.linalg.norm(self.factor_matrices[mode][:, r])", "NORMARG"),
         ('pyttb/ktensor.py', '                        1.0 / tmp * self.factor_matrices[mode][:, r]\n                    )\n                self.weights[r] = self.weights[r] * tmp', '                        1.0 / tmp * self.factor_matrices[mode][:, r]\n                    )\n                    self.weights[r] = self.weights[r] * tmp', 'SCALE'),
         ('pyttb/ktensor.py', '                p = np.argsort(self.weights)[::-1]\n                self.arrange(permutation=p)', '                p = np.argsort(self.weights)[::-1]\n                self.weights[:] = np.abs(self.weights)\n                self.arrange(permutation=p)', 'PS-k'),
         ('pyttb/ktensor.py', '        D = np.diag(np.power(np.fabs(self.weights), 1.0 / self.ndims))\n        factor_matrices = self.factor_matrices.copy()\n        factor_matrices[0] = factor_matrices[0] @ np.diag(lsgn)', '        D = np.diag(lsgn * np.power(np.fabs(self.weights), 1.0 / self.ndims))\n        factor_matrices = self.factor_matrices.copy()', 'SCALE'),
@@ -119,6 +125,7 @@ MUTANTS: Dict[str, List[Tuple[str, str, str, Optional[str]]]] = {
         ("pyttb/gcp/fg_setup.py", "        gradient_handle = handles.rayleigh_grad", "        gradient_handle = handles.gamma_grad", "GRAD-deriv"),
     ],
     "C13": [
+        ("pyttb/gcp/samplers.py", "zero_weights = (np.prod(data.shape) / num_zeros) * np.ones((num_zeros,))", "zero_weights = ((np.prod(data.shape) - data.nnz) / num_zeros) * np.ones((num_zeros,))", "SMP-wt"),
         ("pyttb/gcp/optimizers.py", "        model = initial_model.copy()\n        self.reset()", "        model = initial_model.copy()\n        self._nfails = 0", "ST-reuse"),
         ("pyttb/gcp/optimizers.py", "            np.maximum(lower_bound, factor_k - step * gk)", "            factor_k - step * gk", "BND-proj"),
         ("pyttb/gcp/optimizers.py", "\"f_est_trace\": fest_trace[0 : n_epoch + 2],", "\"f_est_trace\": fest_trace[0 : n_epoch + 1],", "TR-cover"),
@@ -135,6 +142,7 @@ MUTANTS: Dict[str, List[Tuple[str, str, str, Optional[str]]]] = {
         ("pyttb/ttensor.py", "            idx = np.argmax(np.abs(v), axis=0)", "            idx = np.argmax(np.abs(v), axis=1)", "EIG-sign"),
     ],
     "C15": [
+        ("pyttb/tensor.py", "                ):\n                    continue\n\n                # Take average over all elements in the same class", "                ):\n                    break\n\n                # Take average over all elements in the same class", "ALLGRP"),
         ('pyttb/ktensor.py', '                    weights[j] = -weights[j]\n            V = V + fmi', '                    weights[j] = -1.0\n            V = V + fmi', 'SIGNPAIR'),
         ('pyttb/tensor.py', '                    != self.data[tuple(classidx.transpose())]\n                ):\n                    return False\n\n            # We survived all the tests!\n            return True', '                    != self.data[tuple(classidx.transpose())]\n                ):\n                    is_sym = False\n                else:\n                    is_sym = True\n\n            # We survived all the tests!\n            return is_sym', 'ALLGRP'),
         ("pyttb/tensor.py", "classSum = accumarray(linclassidx, data.ravel(order=self.order))", "classSum = accumarray(linclassidx, data.ravel())", "EO-2"),
@@ -155,6 +163,7 @@ MUTANTS: Dict[str, List[Tuple[str, str, str, Optional[str]]]] = {
         ("pyttb/pyttb_utils.py", "    valid, location = tt_ismember_rows(\n        MatrixBUnique[np.argsort(idxB)], MatrixAUnique[np.argsort(idxA)]\n    )\n    return location[valid]", "    valid, location = tt_ismember_rows(\n        MatrixBUnique[np.argsort(idxB)], MatrixAUnique\n    )\n    return location[valid]", "HELP-dom"),
     ],
     "C18": [
+        ("pyttb/gcp_opt.py", "        init.normalize(\"all\")\n        return init", "        init.copy().normalize(\"all\")\n        return init", "EFFECT"),
         ('pyttb/cp_apr.py', '                mu = mu0\n', '                pass\n', 'ROWS'),
         ("pyttb/tucker_als.py", "            print(f\" Iter {iteration}: fit = {fit:e} fitdelta = {fitchange:7.1e}\")", "            fitchange = float(f\"{fitchange:7.1e}\")\n            print(f\" Iter {iteration}: fit = {fit:e} fitdelta = {fitchange:7.1e}\")", "TAINT"),
         ("pyttb/hosvd.py", "    if verbosity > 0:\n        print(\"Computing HOSVD...\\n\")", "    if verbosity > 0:\n        print(\"Computing HOSVD...\\n\")\n        np.random.seed(0)", None),
@@ -168,6 +177,7 @@ MUTANTS: Dict[str, List[Tuple[str, str, str, Optional[str]]]] = {
         ("pyttb/tensor.py", "        if self.ndims == 1 and (order == 1).all():", "        if (order == 1).all():", "GD-val"),
     ],
     "C20": [
+        ("pyttb/pyttb_utils.py", "    if isinstance(shape, (int, np.integer)):\n        return (shape,)", "    if isinstance(shape, int):\n        return (shape,)", "INTKIND"),
         ('pyttb/sptensor.py', '    return sptensor.from_aggregator(subs, elements.reshape((N, 1)), constructed_shape)', '    return sptensor(subs, elements.reshape((N, 1)), constructed_shape)', 'DIAG'),
         ('pyttb/tensor.py', '    subs = np.tile(np.arange(0, N)[:, None], (len(constructed_shape),))\n    X[subs] = elements', '    stride = int(np.sum(np.cumprod((1,) + constructed_shape[1:])))\n    X[np.arange(0, N) * stride] = elements', 'DIAG'),
         ("pyttb/tensor.py", "    def ones(shape: Tuple[int, ...]) -> np.ndarray:\n        return np.ones(shape, order=order)", "    def ones(shape: Tuple[int, ...]) -> np.ndarray:\n        return np.zeros(shape, order=order)", "GEN-fill"),
